@@ -558,9 +558,15 @@ class Resource(object):
                     id_attribute = self.get_id_attribute(eclass)
                     if id_attribute:
                         id_value = obj.eGet(id_attribute)
-                        # id attributes shall not be used if the value is unset
-                        if id_value and self._is_reference_token(id_value):
-                            uri_fragment = id_value
+                        # same rule as for a target of this resource (below):
+                        # the text of a value that is written in the other
+                        # document and can be read back as one token
+                        if id_value is not None and id_value != \
+                                id_attribute.get_default_value():
+                            id_string = id_attribute._eType \
+                                                    .to_string(id_value)
+                            if self._is_reference_token(id_string):
+                                uri_fragment = id_string
             else:
                 uri = ''
                 root = obj.eRoot()
